@@ -12,6 +12,10 @@ def run(v):
     d=tempfile.mkdtemp(prefix="gmars-var.")
     try:
         subprocess.check_call(["rsync","-a","--exclude",".git","--exclude","cmd/vmars","/repo/",d+"/"])
+        if v.get("base"):
+            # the variant is made on top of one of the behaviour-preserving refactorings
+            r=subprocess.run(["patch","-p1","-s","--fuzz=3","-d",d,"-i",os.path.abspath(v["base"])],capture_output=True,text=True)
+            if r.returncode!=0: return v["name"],"SKIPPED","base patch does not apply: "+v["base"]
         for e in v["edits"]:
             hit=0
             for f in glob.glob(os.path.join(d,e["files"]))+glob.glob(os.path.join(d,"cmd/gmars",e["files"])):
